@@ -285,6 +285,41 @@ def run(chk, prog):
     chk.check(rng, "R5", A.loc(fa, {"line": dout.line}), "all bunches, columns and rows are produced (%s)" % [(lv[v].lo, lv[v].hi) for v in "nxy"], "FP::apply:ranges")
     chk.check(jl[0].lo == 0 and jl[0].hi == sp.Symbol("_ip", real=True), "R5", A.loc(fa, {"line": h.line}),
               "all _ip stencil cells of a row are applied", "FP::apply:cells-range")
+    # ---- R7: every transport step is linear in the grid: the value stored in a destination cell is the weighted sum itself ---------------
+    # (column sums of one conserve the plain sum only for a linear map: a clip, floor, absolute value or renormalisation applied to the
+    # accumulated value before it is stored breaks conservation wherever it bites, whatever the weights are)
+    def linear_in_grid(v):
+        """is v = sum of (grid-free factor) * data_in[...] terms, or a SUM(...) of such a term?"""
+        v = sp.expand(v)
+        if v == 0:
+            return True
+        if isinstance(v, sp.Function) and type(v).__name__ == "SUM":
+            return linear_in_grid(v.args[0])
+        if v.is_Add:
+            return all(linear_in_grid(t) for t in v.args)
+        reads = [t for t in v.atoms(sp.Indexed) if str(t.base) == "data_in"]
+        sums = [t for t in v.atoms(sp.Function) if type(t).__name__ == "SUM"]
+        if len(sums) == 1 and not reads:
+            q = sp.simplify(v / sums[0])
+            return not q.has(sums[0]) and not q.atoms(sp.Indexed) - {t for t in q.atoms(sp.Indexed) if str(t.base) != "data_in"} and linear_in_grid(sums[0].args[0])
+        if len(reads) != 1:
+            return False
+        q = sp.simplify(v / reads[0])
+        return not any(str(t.base) == "data_in" for t in q.atoms(sp.Indexed))
+    n7 = 0
+    for fq, sc_ in ((fa, I.scan(fa)), (ka.fn, ka.scan)):
+        acc_ = I._through_scalar_accumulators(sc_.accesses, "data_out")
+        folded = I.fold_stores(sc_.accesses, "data_out")
+        for fo in folded:
+            n7 += 1
+            chk.check(linear_in_grid(fo["value"].subs(sp.Symbol("old"), 0)), "R7", A.loc(fq, {"line": fo["line"]}),
+                      "%s stores the weighted sum of source cells itself (value %s)" % (fq["qname"].replace("vfps::", ""), str(fo["value"])[:160]),
+                      "%s:nonlinear-store" % fq["qname"].replace("vfps::", ""))
+    chk.floor("R7-destination-stores", n7, 3)
+    # ---- R8: weight function and table builders keep no state between calls (a memo keyed on part of the arguments hands out the weights
+    # of another order or offset) ------------------------------------------------------------------------------------------------
+    from .common import no_state_between_calls
+    no_state_between_calls(chk, prog.fn("vfps::SourceMap::calcCoefficiants"), "R8")
     # ---- R6: the source-map table is rebuilt whenever the displacement field changes (a stale table moves the grid by old offsets) ----
     K.offset_table_sync(chk, prog, "R6")
     chk.notes.append("C01: column sums of every transport operator (kick maps via weights+index maps, Fokker-Planck stencils incl. "
